@@ -260,7 +260,9 @@ def get_matcher(patterns, case_sensitive, accept_prefix=False):
     if accept_prefix:
         new_patterns = []
         for pattern in patterns:
-            split = _split_pattern_by_sep(pattern)
+            # cut at every separator, exactly where the translation of the
+            # pattern starts a new path component
+            split = pattern.split("/")
             for i in range(1, len(split)):
                 new_pattern = "/".join(split[:i])
                 new_patterns.append(new_pattern)
